@@ -202,11 +202,19 @@ def rule_c(ctx, ix):
     # CoordinateComponent uses the pixel->world helper for world values
     cc = ix.cls('glue.core.component.CoordinateComponent')
     g = cc.resolve_func('_calculate')
-    hs = [call_name(c) for c in calls_in(g.node) if call_name(c) in ('pixel2world_single_axis', 'world2pixel_single_axis')]
+    # the transformation is called here or in a method of the class this one hands the positions to (one level)
+    bodies = [g]
+    for c in calls_in(g.node):
+        if isinstance(c.func, ast.Attribute) and unparse(c.func.value) == g.self_name:
+            h_ = cc.resolve_func(c.func.attr)
+            if h_ is not None and h_ is not g and h_ not in bodies and \
+                    any(call_name(x) in ('pixel2world_single_axis', 'world2pixel_single_axis') for x in calls_in(h_.node)):
+                bodies.append(h_)
+    hs = [call_name(c) for b_ in bodies for c in calls_in(b_.node) if call_name(c) in ('pixel2world_single_axis', 'world2pixel_single_axis')]
     ctx.ob(R, g.construct, 'world attribute values are computed with pixel2world_single_axis', bool(hs) and set(hs) == {'pixel2world_single_axis'},
            detail='CoordinateComponent._calculate uses %s' % hs, where=g.where)
     from ..util import expand_locals as _xl
-    axes = {norm(_xl(g.node, kwarg(c, 'world_axis'))) for c in calls_in(g.node) if call_name(c) == 'pixel2world_single_axis' and kwarg(c, 'world_axis') is not None}
+    axes = {norm(_xl(b_.node, kwarg(c, 'world_axis'))).replace(b_.self_name + '.', 'self.') for b_ in bodies for c in calls_in(b_.node) if call_name(c) == 'pixel2world_single_axis' and kwarg(c, 'world_axis') is not None}
     ctx.ob(R, g.construct + ' axis', 'every helper call asks for the same (converted) axis', len(axes) == 1,
            detail='the helper is called with world_axis in %s' % sorted(axes), where=g.where)
 
@@ -264,14 +272,35 @@ SITE_RESULT = {
 def _enclosing_funcs(ix):
     """(construct, FunctionDef, module) for every function / method of the package (nested functions belong to their outer one)."""
     out = []
+    # the functions as the index presents them: new private helpers are read where they are called (inlined)
+    byraw = {}
+    for f in ix.functions.values():
+        byraw[id(f.raw_node)] = f
+    for c in ix.classes.values():
+        for m in c.members.values():
+            for f in (m.func, m.fget, m.fset, m.fdel):
+                if f is not None:
+                    byraw[id(f.raw_node)] = f
+
+    def view(raw):
+        f = byraw.get(id(raw))
+        if f is None:
+            return raw
+        if ix.helper_status(f) == 'inlined':
+            return None
+        return f.node
     for name, mod in sorted(ix.modules.items()):
         for node in mod.tree.body:
             if isinstance(node, (ast.FunctionDef, ast.AsyncFunctionDef)):
-                out.append(('%s:%s' % (name, node.name), node, mod))
+                v = view(node)
+                if v is not None:
+                    out.append(('%s:%s' % (name, node.name), v, mod))
             elif isinstance(node, ast.ClassDef):
                 for ch in node.body:
                     if isinstance(ch, (ast.FunctionDef, ast.AsyncFunctionDef)):
-                        out.append(('%s:%s.%s' % (name, node.name, ch.name), ch, mod))
+                        v = view(ch)
+                        if v is not None:
+                            out.append(('%s:%s.%s' % (name, node.name, ch.name), v, mod))
     return out
 
 
@@ -283,7 +312,16 @@ def rule_e(ctx, ix):
                     'their callers need; the inverse direction does not read the forward table as if it were its own', floor=12)
     mod = ix.module(HELPERS)
     from ..index import fold_return_temps
-    funcs = {n.name: fold_return_temps(n) for n in mod.tree.body if isinstance(n, ast.FunctionDef)}
+    funcs = {}
+    for n in mod.tree.body:
+        if isinstance(n, ast.FunctionDef):
+            fo = ix.functions.get('%s.%s' % (HELPERS, n.name))
+            if fo is not None and fo.raw_node is n:
+                if ix.helper_status(fo) == 'inlined':
+                    continue            # a new private helper: read where it is called
+                funcs[n.name] = fo.node
+            else:
+                funcs[n.name] = fold_return_temps(n)
     for need in ('pixel2world_single_axis', 'world2pixel_single_axis', 'dependent_axes'):
         if need not in funcs:
             raise AnalysisError('%s.%s vanished' % (HELPERS, need))
